@@ -14,6 +14,9 @@ TOL_S = 1e-3 + 1e-6      # "same instant to within one millisecond" (+ float sla
 ASSUMPTIONS = [
     "reference calendar = Python datetime/calendar (proleptic Gregorian, no leap seconds, as tracklib documents)",
     "domain 1970-01-01 .. 2099-12-31, millisecond resolution, time zone 0",
+    "lives: the calendar fields are public attributes and may be assigned well-formed int values in place at any time (also on a copy()); "
+    "every later conversion / comparison / difference / offset is judged against the fields the object holds at the time of that call; "
+    "copy() itself is not judged (the fields the copy shows are taken as its state)",
 ]
 
 
@@ -232,11 +235,225 @@ def body_offset(case):
     return {"nt": crossing != "none", "cls": ["cross-" + crossing, "neg" if n < 0 else "pos"]}
 
 
+
+# --- (vi) object histories: conversions / comparisons / offsets interleaved with in-place field edits ---
+# The calendar fields of an ObsTime are plain public attributes and copy() hands out independent objects, so a
+# timestamp has a life: it is converted, compared, offset, then some field is assigned a new value (or the object is
+# re-used for another instant, or copied and the copy edited) and it is converted / compared / offset again.  Every
+# judged call gets the same oracle as in (i)-(v), computed from the fields the object holds AT THAT TIME.
+FIELDS = ("year", "month", "day", "hour", "min", "sec", "ms")
+_FIELD_MAX = {"hour": 23, "min": 59, "sec": 59, "ms": 999}
+
+
+def _valid_fields(f):
+    if len(f) != 7 or any(isinstance(v, bool) or not isinstance(v, int) for v in f):
+        return False
+    y, mo, d, h, mi, s, z = f
+    return (1970 <= y <= 2099 and 1 <= mo <= 12 and 1 <= d <= calendar.monthrange(y, mo)[1]
+            and 0 <= h <= 23 and 0 <= mi <= 59 and 0 <= s <= 59 and 0 <= z <= 999)
+
+
+@st.composite
+def strat_life_(draw):
+    a = draw(gen.ts_ms())
+    b = draw(st.one_of(gen.ts_ms(), st.just(a),
+                       st.sampled_from([-DAY, -3600000, -1000, -1, 1, 1000, 3600000, DAY]).map(
+                           lambda d: min(max(a + d, 0), gen.MAX_MS))))
+    model = [list(gen.fields_of_ms(a)), list(gen.fields_of_ms(b))]
+    steps = []
+    focus = draw(st.integers(0, 1))                             # most steps work on one of the two objects
+    for _ in range(draw(st.integers(3, 10))):
+        kind = draw(st.sampled_from(["abs", "abs", "set", "set", "set", "reuse", "copy", "cmp", "cmp", "add", "add", "rt"]))
+        s = draw(st.sampled_from([focus, focus, focus, 1 - focus]))
+        f = model[s]
+        if kind in ("abs", "rt"):
+            steps.append([kind, s])
+        elif kind == "cmp":
+            steps.append(["cmp", s])
+        elif kind == "copy":
+            steps.append(["copy", s, 1 - s])
+            model[1 - s] = list(f)
+        elif kind == "reuse":                                   # the object is given all fields of another instant
+            g = list(gen.fields_of_ms(draw(gen.ts_ms())))
+            steps.append(["set", s, [[FIELDS[i], g[i]] for i in range(7)]])
+            model[s] = g
+        elif kind == "set":
+            i = draw(st.integers(0, 6))
+            name = FIELDS[i]
+            if name == "year":
+                lo, hi = 1970, 2099
+            elif name == "month":
+                lo, hi = 1, 12
+            elif name == "day":
+                lo, hi = 1, calendar.monthrange(f[0], f[1])[1]
+            else:
+                lo, hi = 0, _FIELD_MAX[name]
+            v = draw(st.one_of(st.sampled_from([f[i] - 1, f[i] + 1, lo, hi]), st.integers(lo, hi)))
+            v = min(max(v, lo), hi)
+            g = list(f)
+            g[i] = v
+            assign = [[name, v]]
+            last = calendar.monthrange(g[0], g[1])[1]
+            if g[2] > last:                                     # 31 Jan -> month 2: the day is edited as well
+                g[2] = last
+                assign.append(["day", last])
+            steps.append(["set", s, assign])
+            model[s] = g
+        else:
+            unit = draw(st.sampled_from(sorted(UNITS)))
+            mag = draw(st.one_of(st.integers(0, 400), st.sampled_from([0, 1, 59, 60, 61, 23, 24, 25, 28, 29, 30, 31, 365, 366]),
+                                 st.integers(0, 100000)))
+            n = draw(st.sampled_from([-1, 1])) * mag
+            ms = gen.ms_of_fields(*f)
+            if not (0 <= ms + n * UNITS[unit] * 1000 <= gen.MAX_MS):
+                n = -n
+            if not (0 <= ms + n * UNITS[unit] * 1000 <= gen.MAX_MS):
+                n = 0
+            adopt = draw(st.booleans())
+            steps.append(["add", s, unit, n, adopt])
+            if adopt:
+                model[s] = list(gen.fields_of_ms(ms + n * UNITS[unit] * 1000))
+    return {"a": a, "b": b, "steps": steps}
+
+
+def strat_life():
+    return strat_life_()
+
+
+def body_life(case):
+    m = [tuple(gen.fields_of_ms(case["a"])), tuple(gen.fields_of_ms(case["b"]))]     # fields each object holds now
+    obj = [ObsTime(*m[0]), ObsTime(*m[1])]
+    conv = [False, False]          # a seconds-based call has been made on this object (or on the one it was copied from)
+    stale = [False, False]         # ... and a field was assigned afterwards
+    copied = [False, False]
+    cls = set()
+    nt = False
+    log = []
+
+    def note(s, what):
+        nonlocal nt
+        if stale[s]:
+            nt = True
+            cls.add(what + "-after-edit")
+            if copied[s]:
+                cls.add(what + "-after-edit-of-copy")
+        else:
+            cls.add(what + "-unedited")
+        conv[s] = True
+
+    def hist():
+        return " | history: %s" % "; ".join(log[-8:])
+
+    for step in case["steps"]:
+        kind, s = step[0], step[1]
+        if s not in (0, 1):
+            return {"undef": True}
+        t, f = obj[s], m[s]
+        if kind == "set":
+            g = dict(zip(FIELDS, f))
+            for name, v in step[2]:
+                if name not in g:
+                    return {"undef": True}
+                g[name] = v
+            g = tuple(g[k] for k in FIELDS)
+            if not _valid_fields(g):
+                return {"undef": True}
+            for name, v in step[2]:
+                setattr(t, name, v)
+            if _fields(t) != g:
+                raise Violation("history-field-assignment-lost", "after assigning %s the object shows %s" % (step[2], _fields(t)))
+            if g != f:
+                if conv[s]:
+                    stale[s] = True
+                cls.add("set-" + (step[2][0][0] if len(step[2]) < 7 else "all"))
+            m[s] = g
+            log.append("t%d.%s" % (s, ",".join("%s=%s" % (a, b) for a, b in step[2])))
+        elif kind == "copy":
+            d = step[2]
+            if d not in (0, 1) or d == s:
+                return {"undef": True}
+            obj[d] = t.copy()
+            m[d] = _fields(obj[d])                 # copy() itself is not this property's subject
+            if not _valid_fields(m[d]):
+                return {"undef": True}
+            conv[d], stale[d], copied[d] = conv[s], stale[s], True
+            cls.add("copy")
+            log.append("t%d=t%d.copy()" % (d, s))
+        elif kind == "abs":
+            want = gen.ms_of_fields(*f) / 1000.0
+            got = t.toAbsTime()
+            log.append("t%d.toAbsTime()" % s)
+            if abs(got - want) > 1e-6:
+                raise Violation("history-toAbsTime-wrong", "object showing %s: toAbsTime() = %r, calendar says %r%s" % (
+                    f, got, want, hist()))
+            note(s, "toAbsTime")
+        elif kind == "rt":
+            ms = gen.ms_of_fields(*f)
+            r = ObsTime.readUnixTime(t.toAbsTime())
+            log.append("readUnixTime(t%d.toAbsTime())" % s)
+            _wellformed(r, "round trip of %s" % (f,))
+            if abs(gen.ms_of_obstime(r) - ms) > 1 or (ms % 1000 == 0 and (_fields(r) != f or r != t)):
+                raise Violation("history-roundtrip-wrong", "object showing %s: readUnixTime(toAbsTime()) = %s%s" % (
+                    f, _fields(r), hist()))
+            note(s, "roundtrip")
+        elif kind == "cmp":
+            o = 1 - s
+            a, b = gen.ms_of_fields(*f), gen.ms_of_fields(*m[o])
+            ta, tb = t, obj[o]
+            log.append("t%d <=> t%d" % (s, o))
+            want = {"<": a < b, ">": a > b, "==": a == b, "!=": a != b, "<=": a <= b, ">=": a >= b}
+            got = {"<": ta < tb, ">": ta > tb, "==": ta == tb, "!=": ta != tb, "<=": ta <= tb, ">=": ta >= tb}
+            for op in sorted(want):
+                if bool(got[op]) != want[op]:
+                    raise Violation("history-order-" + op, "%s %s %s is %s%s" % (f, op, m[o], got[op], hist()))
+            diff = ta - tb
+            if abs(diff - (a - b) / 1000.0) > 1e-6:
+                raise Violation("history-difference-wrong", "%s - %s = %r, seconds differ by %r%s" % (
+                    f, m[o], diff, (a - b) / 1000.0, hist()))
+            if stale[o] and not stale[s]:
+                nt = True
+                cls.add("difference-after-edit")
+            note(s, "difference")
+            conv[o] = True
+        elif kind == "add":
+            unit, n = step[2], step[3]
+            if unit not in UNITS or isinstance(n, bool) or not isinstance(n, int):
+                return {"undef": True}
+            ms = gen.ms_of_fields(*f)
+            target = ms + n * UNITS[unit] * 1000
+            if target < 0 or target > gen.MAX_MS:
+                cls.add("add-skipped-out-of-domain")
+                continue
+            r = {"sec": t.addSec, "min": t.addMin, "hour": t.addHour, "day": t.addDay}[unit](n)
+            log.append("t%d.add%s(%d)" % (s, unit, n))
+            _wellformed(r, "%s add %d %s" % (f, n, unit))
+            back = gen.ms_of_obstime(r)
+            if abs(back - target) > 1 or (ms % 1000 == 0 and back != target):
+                raise Violation("history-add-wrong", "object showing %s add %d %s = %s, off by %d ms%s" % (
+                    f, n, unit, _fields(r), back - target, hist()))
+            if _fields(t) != f:
+                raise Violation("add-mutates", "add%s changed its receiver" % unit)
+            note(s, "add")
+            if len(step) > 4 and step[4]:                   # go on with the returned object (fresh from readUnixTime)
+                obj[s], m[s] = r, _fields(r)
+                conv[s], stale[s], copied[s] = False, False, False
+                cls.add("adopt-result")
+                log.append("t%d=result" % s)
+        else:
+            return {"undef": True}
+    return {"nt": nt, "cls": sorted(cls)}
+
+
 RULE = ("days: every calendar day 1970-2099 x {00:00:00.000, 12:00, 23:59:59, 23:59:59.999, one fixed pseudo-random ms}; "
         "seconds: the 4 boundary days of every year (1 Jan, 28 Feb, 29 Feb/1 Mar, 31 Dec), every 997th second + first/last 3 (quick) "
         "or every second (thorough); instants/pairs/offsets: Hypothesis, weighted to calendar boundaries. "
         "Non-trivial: instant within 1 s of a day/month/year boundary or on 29 Feb; pair whose order is decided by a field other "
-        "than the year; offset that crosses a day/month/year boundary. Distinct = hash of the case.")
+        "than the year; offset that crosses a day/month/year boundary. "
+        "lives: two timestamp objects and 2-10 steps drawn from toAbsTime / round trip / six comparisons + difference with the other object / "
+        "addSec|Min|Hour|Day (optionally going on with the returned object) / copy() into the other slot / in-place assignment of one field "
+        "(+-1, its minimum, its maximum, any legal value; the day is clamped with a second assignment when the month shrinks) or of all seven "
+        "fields (object re-used for another instant); non-trivial: a seconds-based call on an object that was converted before and had a field "
+        "assigned since. Distinct = hash of the case.")
 
 SUBCHECKS = [
     SubCheck("days", body_day, enum=enum_days, rule="all 47482 days x 5 instants", qshards=8),
@@ -245,4 +462,6 @@ SUBCHECKS = [
     SubCheck("float_seconds", body_float, strategy=strat_float, quick=3000, thorough=150000),
     SubCheck("pairs", body_pair, strategy=strat_pair, quick=4000, thorough=200000),
     SubCheck("offsets", body_offset, strategy=strat_offset, quick=4000, thorough=200000),
+    SubCheck("lives", body_life, strategy=strat_life, quick=6000, thorough=200000, qshards=6,
+             rule="object histories: convert / compare / offset, assign fields in place (also on a copy), convert again"),
 ]
